@@ -162,6 +162,8 @@ def histories(thorough):
         ['I 5 5 5 6', 'D k = 5', 'I 5', 'D k = 6', 'D k = 6'],
         ['I 1 2', 'D k = 9', 'D k < 100', 'I 1'],
         ['I 10 20 30 40 50 60 70 80', 'D k = 10', 'D k = 80', 'D k > 30 and k < 60', 'I 45', 'D v = 0'],
+        ['I 1 3 5 7 9 11', 'I 2 4 6 8 10 12', 'D k < 7', 'I 0 13', 'D k > 3 and k < 11', 'D k = 12'],
+        ['I 1 4 7 10', 'I 2 5 8 11', 'I 3 6 9 12', 'D k >= 4 and k <= 9', 'D k < 3'],
     ]
     # inputs larger than one chunk (1024 rows) and one block, deletions spread over several row-sets
     big = [['R 0 1300', 'R 1300 2600', 'D k % 3 = 0', 'D k >= 1000 and k < 1100', 'R 5000 5010', 'D v % 7 = 1', 'D k = 2599'],
@@ -173,8 +175,11 @@ def run_probes(rep, thorough):
     n = ok = 0
     for hi, hist in enumerate(histories(thorough)):
         big = any(st.startswith('R ') for st in hist)
-        for eng, block in ((('mem', None), ('disk', 4096)) if big else (('mem', None), ('disk', 4096), ('disk', 24))):
-            stmts = ['create table t(k int, v int)']
+        # with a primary key the DELETE's scan merges the row-sets in key order (handlers of different row-sets alternate)
+        dup_keys = any(len(set(st.split()[1:])) != len(st.split()[1:]) for st in hist if st.startswith('I '))
+        configs = [('mem', None, False), ('disk', 4096, False)] + ([] if big else [('disk', 24, False)]) + ([] if dup_keys else [('disk', 4096, True), ('mem', None, True)])
+        for eng, block, pk in configs:
+            stmts = ['create table t(k int%s, v int)' % (' primary key' if pk else '')]
             model = []
             deleted_rows = []
             seq = 0
@@ -237,7 +242,7 @@ def run_probes(rep, thorough):
                     if extra and not missing and all(r in deleted_rows for r in extra):
                         # the symptom of the background compactor replacing row-sets while a DELETE commits (timing dependent)
                         key = 'history:disk:deleted-rows-reappear'
-                what = 'after `%s` (history %d, %s engine%s): %s is %s, the model says %s' % ('; '.join(stmts[1:idx + 1])[-200:], hi, eng, ', %d-byte blocks' % block if block else '', kind, got, want)
+                what = 'after `%s` (history %d, %s engine%s%s): %s is %s, the model says %s' % ('; '.join(stmts[1:idx + 1])[-200:], hi, eng, ', %d-byte blocks' % block if block else '', ', primary key' if pk else '', kind, got, want)
                 outc = rep.counterexample(key, what[:500], {'stmts': stmts[:idx + 1], 'got': got, 'expected': want}, True)
                 rep.obligation(outc == 'known')
                 break
